@@ -784,6 +784,50 @@ def rule_v9(F):
     return r
 
 
+def rule_v10(F):
+    """`Offset` yields the address `offset` bytes past THE POINTER IT IS GIVEN.  In the evaluator that is Memory::offset_by -> the
+    pointer's own offset_by (decided by V7 to accumulate).  Every answer of the memory-level function must therefore come from that
+    computation on the given pointer: an exit that returns a pointer obtained otherwise (a cache keyed by less than the pointer's
+    full position, a previously handed-out index) silently yields the address of another field - in bounds and aligned, so no check
+    fires, and the evaluator completes with a different value."""
+    r = RuleResult("C20.V10", "Memory::offset_by answers only with a pointer derived from the given pointer's own position (every exit passes LocalPointer::offset_by)", floor=1)
+    ps = [p for p in F.paths() if p.endswith("Memory::offset_by") and "lir::eval" in p]
+    inner = [p for p in F.paths() if p.endswith("LocalPointer::offset_by")]
+    if not ps or not inner:
+        r.missing("lir::eval Memory::offset_by / LocalPointer::offset_by")
+        return r
+    b = F.body(ps[0])
+    if not b.mir:
+        r.missing("MIR of Memory::offset_by")
+        return r
+    derive = {bi for bi, t in mir.calls(b) if (mir.callee(t) in inner or mir.callee_def(t) in inner)}
+    rets = [bi for bi, blk in enumerate(b.blocks) if blk["term"]["k"] == "return"]
+    r.inst("Memory::offset_by", {"derivations": len(derive), "returns": len(rets)})
+    if not derive:
+        r.bad(b.path, "no derivation", relfile(b.file), b.line, "Memory::offset_by no longer computes the new pointer with LocalPointer::offset_by")
+        return r
+    reach = mir.reachable_from(b, 0, stop=derive)
+    for x in rets:
+        if x in reach and x not in derive:
+            # is x reachable from the entry without passing a derivation?
+            seen, work = set(), [0]
+            hit = False
+            while work:
+                y = work.pop()
+                if y in seen or y in derive:
+                    continue
+                seen.add(y)
+                if y == x:
+                    hit = True
+                    break
+                work.extend(mir.succs(b.blocks[y]))
+            if hit:
+                r.bad(b.path, "exit without derivation", relfile(b.file), b.blocks[x]["term"].get("line") or b.line,
+                      "Memory::offset_by can return without computing `pointer.offset_by(offset)` for the pointer it was given (e.g. from a table of earlier results): "
+                      "`(base+8)+4` answered with a remembered `base+4` reads another field of a nested record - the evaluator completes with a different value than the compiled code")
+    return r
+
+
 def rules(ctx):
     F = ctx["F"]
-    return [rule_v1(F), rule_v2(F), rule_v3(F), rule_v4(F), rule_v6(F), rule_v7(F), rule_v8(F), rule_v9(F)]
+    return [rule_v1(F), rule_v2(F), rule_v3(F), rule_v4(F), rule_v6(F), rule_v7(F), rule_v8(F), rule_v9(F), rule_v10(F)]
